@@ -5,6 +5,8 @@ ROOT = os.path.dirname(os.path.dirname(os.path.abspath(__file__)))
 TECH = ("bounded symbolic execution of the real Python code (CrossHair 0.0.110 + z3): per-obligation verdict over all values "
         "inside the stated bound, reachability twin per obligation, counterexamples replayed on the real implementation")
 CHECKS = {
+ "C01": ("Every primitive verb reachable from the interpreter's own dispatch tables is executed symbolically (real eval_monad_*/eval_dyad_*, vec_fn/vec_fn2/rec_fn, kg_asarray, kg_equal, kg_argsort) over a list-backed NumPy model: symbolic counts and indices, symbolic vector length (<=3 quick, <=5 thorough), unbounded symbolic integer elements, strings of every length, nesting templates up to depth 3 (atom, vectors, nested, ragged, matrix) with symbolic leaves, matrices with symbolic leaves, and solver-enumerated small concrete domains for the real-valued kind rules; the result must equal, in structure, elements and integer/real/char/string kind, a loop-and-index reference written from the verb's docstring.",
+         "NumPy is replaced by vt.symnp (validated on the repo's 1400+ suite expressions by the conformance gate and by replay of every witness on real NumPy); integers are mathematical; reals only as concrete probes; torch, int64 overflow, tie order of grade, operands on which the reference is silent are outside the claim"),
  "C13": ("Claimed in part: (a) n frames written by the real stream_send_msg and read by the real stream_recv_msg with symbolic payload bytes/lengths and a symbolic cut point come back one by one, intact, in order, and a cut stream raises and never yields an unsent message; (b) every server command class reaches exactly its branch and completes the result future exactly once with the right value/exception, popping the connection handle.",
          "pickle is an opaque injective codec and struct '!I' is big-endian arithmetic (stand-ins); readexactly's contract is trusted; value fidelity through pickle (e.g. :undefined identity) and a live server are outside the claim"),
  "C14": ("One-step lemmas from an arbitrary pending table (any subset of a 4-id domain): a received message completes exactly its own future; for every transport fault class and for a close request the listener task ends with every pending call completed exactly once and the table empty; a call on a closed connection registers nothing. Plus a scheduled simulation of 2-3 concurrent callers and the listener coroutine with a symbolic inbound script and symbolic scheduling decisions: every caller returns its own answer exactly once or raises, nobody is left blocked.",
